@@ -553,6 +553,42 @@ var histProp = vh.Define("C18", "history", func(c HistCase, r *vh.R) {
 	}
 })
 
+// TestFixedHistories: for every kind of object with fixed contents (the structured-header lists
+// at every size 0..12), two fixed histories that do not depend on what the generator happens
+// to draw: (a) every failing / refused call first, then every serializer three times; (b) every
+// serializer, every failing call, every serializer again.
+func TestFixedHistories(t *testing.T) {
+	fixedSxg := &sxgkit.Spec{Version: "1b3", URL: "https://a.example/index.html", Method: "GET", Status: 200,
+		ResHeaders: []gen.HeaderKV{{Name: "Content-Type", Values: []string{"text/html"}}, {Name: "X-One", Values: []string{"1"}}, {Name: "a-two", Values: []string{"2"}}},
+		PayloadLen: 100, PayloadTag: 7, RecordSize: 16, Fixture: 0, Date: 1_700_000_000, Expires: 1_700_003_600, ValidityURL: "https://a.example/v", CertURL: "https://a.example/c"}
+	fixedBundle := &bundlekit.Spec{Version: "b2", Exchanges: []bundlekit.ExSpec{{URL: "https://a.example/", Status: 200, BodyLen: 30, BodyTag: 1,
+		Headers: []gen.HeaderKV{{Name: "A", Values: []string{"1"}}, {Name: "B", Values: []string{"2"}}, {Name: "C", Values: []string{"3"}}}}}}
+	var inputs []Input
+	for n := 0; n <= 12; n++ {
+		inputs = append(inputs, Input{Kind: "sh-pl", N: n, Tag: uint64(n)}, Input{Kind: "sh-ll", N: n, Tag: uint64(n)})
+	}
+	for _, k := range []string{"subset", "certchain", "iblock", "mice", "bundleid"} {
+		inputs = append(inputs, Input{Kind: k, N: 5, Tag: 3})
+	}
+	inputs = append(inputs, Input{Kind: "sxg", Sxg: fixedSxg}, Input{Kind: "bundle", Bundle: fixedBundle})
+	for _, in := range inputs {
+		// (a) calls[0] odd: all failing calls happen before the reference outputs are taken
+		a := HistCase{Pool: []Input{in}, Calls: []int{65}}
+		// (b) calls[0] even: reference outputs, then failing calls, then the serializers again
+		b := HistCase{Pool: []Input{in}, Calls: []int{0}}
+		for k := 0; k < 16; k++ {
+			a.Calls = append(a.Calls, k, k, k)
+			b.Calls = append(b.Calls, 64+k)
+		}
+		for k := 0; k < 16; k++ {
+			b.Calls = append(b.Calls, k)
+		}
+		if !histProp.One(t, a) || !histProp.One(t, b) {
+			return
+		}
+	}
+}
+
 func TestPropHistory(t *testing.T) {
 	histProp.Rapid(t, func(t *rapid.T) HistCase {
 		c := HistCase{}
